@@ -82,7 +82,9 @@ def check_normalize(ctx):
         raise
     iflag = ifn.args.args[3].arg
     bad = [o for o in sub.obs if not o.ok]
-    ctx.ob("R06.2", c05.FN + ":step-primitive", not bad and not sub.broken, found=["%s %s" % (o.rule, o.construct) for o in bad][:4] or "all C05 obligations discharged",
+    if not bad and (sub.broken or sub.floor_failures):            # C05 could not be decided: neither can this obligation (not a violation)
+        raise AnalysisError("dependency C05 of C06 could not be analysed: %s" % (sub.broken or sub.floor_failures[0]))
+    ctx.ob("R06.2", c05.FN + ":step-primitive", not bad, found=["%s %s" % (o.rule, o.construct) for o in bad][:4] or "all C05 obligations discharged",
            required="the only step primitive, interchange, is a legal single exchange (rules R05.1-R05.4)", mod=RW, node=ifn,
            sig="c05:" + ",".join(sorted({o.rule for o in bad})))
     first = getattr(sub, "first_cfg", {})
